@@ -68,7 +68,7 @@ theorem execInstr_preserves (hP : Preserved P) (lines : List Text.Str) {rec : Re
     simp only [execInstr, bind_ok_iff, pure_ok_iff] at h
     obtain ⟨r1, h1, rfl⟩ := h
     refine hP.setCur _ _ (visitInFlow_preserves hP hrec body _ _ r1 h1 ?_)
-    have h0 := foldl_addName_preserves hP (st.newScope kind).2.2 args _ (hP.newScope st kind hp)
+    have h0 := foldl_addName_preserves hP (st.newScope (if kind then ScopeKind.cls else ScopeKind.func)).2.2 args _ (hP.newScope st (if kind then ScopeKind.cls else ScopeKind.func) hp)
     split
     · exact hP.addName _ _ _ h0
     · exact h0
@@ -111,6 +111,25 @@ theorem visit_preserves (hP : Preserved P) (lines : List Text.Str) :
       exact exec_preserves hP lines ih prog [] st st' h2 hp
     · cases h
 
+theorem starNames_preserves (hP : Preserved P) (s : Star) (names : List String) : ∀ st, P st → P (starNames s names st) := by
+  unfold starNames
+  induction names with
+  | nil => intro st hp; exact hp
+  | cons nm names ih =>
+    intro st hp
+    simp only [List.foldl_cons]
+    apply ih
+    split
+    · exact hp
+    · exact hP.addName _ _ _ hp
+
+theorem resolveStar_preserves (hP : Preserved P) (mods : List (String × List String)) (s : Star) (st : St) (hp : P st) :
+    P (resolveStar mods st s) := by
+  unfold resolveStar
+  split
+  · exact hp
+  · exact starNames_preserves hP s _ st hp
+
 theorem resolveStars_preserves (hP : Preserved P) (mods : List (String × List String)) (st : St) (hp : P st) :
     P (resolveStars mods st) := by
   unfold resolveStars
@@ -120,21 +139,7 @@ theorem resolveStars_preserves (hP : Preserved P) (mods : List (String × List S
   | nil => exact hp
   | cons s l ih =>
     simp only [List.foldl_cons]
-    apply ih
-    split
-    · exact hp
-    · rename_i names hlk
-      clear hlk
-      generalize hst : st = st0 at hp
-      clear hst
-      induction names generalizing st0 with
-      | nil => exact hp
-      | cons nm names ih2 =>
-        simp only [List.foldl_cons]
-        apply ih2
-        split
-        · exact hp
-        · exact hP.addName _ _ _ hp
+    exact ih _ (resolveStar_preserves hP mods s st hp)
 
 /-- INDUCTION OVER THE EXTRACTOR'S ACTIONS: what holds of the initial state and is kept by every
     primitive action holds of the extracted state -/
